@@ -237,6 +237,12 @@ func scripted() map[string]input {
 	for name, in := range sessionScenarios() {
 		out[name] = in
 	}
+	for name, in := range aimedScenarios() {
+		out[name] = in
+	}
+	for name, in := range tagShapeScenarios() {
+		out[name] = in
+	}
 	return out
 }
 
@@ -379,6 +385,20 @@ type tracker struct {
 	g    *memsim.Gen
 	r    *rand.Rand
 	mans map[string][]manRec
+	// content of every blob a push stored, by digest (for pushes aimed at it)
+	blobs map[string][]byte
+	// operations scripted ahead by the tracker itself, and the commit that is to follow the
+	// chunked upload it has just asked for
+	queue []memsim.Op
+	aim   *aimPlan
+	// tags of this history that look like something else (aim.go: lookalikeTags)
+	shaped []string
+}
+
+type aimPlan struct {
+	digest string
+	body   []byte
+	write  bool
 }
 
 func (t *tracker) update(o memsim.Op, res memsim.Result, ex *memsim.Exec) {
@@ -386,6 +406,69 @@ func (t *tracker) update(o memsim.Op, res memsim.Result, ex *memsim.Exec) {
 	if o.Kind == "PushManifest" && res.Kind == "desc" {
 		t.mans[o.Repo] = append(t.mans[o.Repo], manRec{res.Desc.Digest, o.Media, o.Content})
 	}
+	if o.Kind == "PushBlob" && res.Kind == "desc" && memsim.Sha(o.Content) == res.Desc.Digest {
+		t.blobs[res.Desc.Digest] = o.Content
+	}
+	if o.Kind == "PushBlobChunked" && t.aim != nil {
+		if res.Kind == "writer" {
+			if t.aim.write {
+				t.queue = append(t.queue, memsim.Op{Kind: "WWrite", W: res.W, Content: t.aim.body})
+			}
+			t.queue = append(t.queue, memsim.Op{Kind: "WCommit", W: res.W, Digest: t.aim.digest})
+		}
+		t.aim = nil
+	}
+}
+
+// aimedBody: what arrives under the digest of content x instead of x
+func (t *tracker) aimedBody(x []byte) []byte {
+	switch k := t.r.Intn(6); {
+	case k < 2 || len(x) == 0:
+		return []byte{}
+	case k == 2:
+		return x[:len(x)-1]
+	case k == 3:
+		return x[:1]
+	case k == 4:
+		return append(append([]byte{}, x...), 0)
+	}
+	return []byte("other")
+}
+
+// aimed: a push under the digest of something the repository holds - a blob, or a manifest -
+// with a body that is not that content, and a size of every kind
+func (t *tracker) aimed(repo string) (memsim.Op, bool) {
+	var d string
+	var x []byte
+	ms := t.mans[repo]
+	bl := t.g.Blobs[repo]
+	switch {
+	case len(bl) > 0 && (len(ms) == 0 || t.r.Intn(4) != 0):
+		d = bl[t.r.Intn(len(bl))]
+		x = t.blobs[d] // nil when the blob came by a chunked upload or a mount
+		if x == nil {
+			x = []byte("??????")
+		}
+	case len(ms) > 0:
+		m := ms[t.r.Intn(len(ms))]
+		d, x = m.digest, m.content
+	default:
+		return memsim.Op{}, false
+	}
+	b := t.aimedBody(x)
+	switch k := t.r.Intn(10); {
+	case k < 7:
+		size := []int64{int64(len(x)), int64(len(x)), -1, 0, int64(len(x)) + 1, int64(len(b)), 1}[t.r.Intn(7)]
+		return memsim.Op{Kind: "PushBlob", Repo: repo, Content: b, Desc: &memsim.Desc{Media: "application/octet-stream", Digest: d, Size: size}}, true
+	case k < 9:
+		if t.g.NoUploads {
+			return memsim.Op{}, false
+		}
+		t.aim = &aimPlan{digest: d, body: b, write: len(b) > 0 || t.r.Intn(2) == 0}
+		return memsim.Op{Kind: "PushBlobChunked", Repo: repo}, true
+	}
+	from := t.g.Repos[t.r.Intn(len(t.g.Repos))]
+	return memsim.Op{Kind: "MountBlob", From: from, Repo: repo, Digest: d}, true
 }
 
 func (t *tracker) liveRepo() string {
@@ -422,8 +505,18 @@ func (t *tracker) targeted() (memsim.Op, bool) {
 	tag := t.g.Tags[t.r.Intn(len(t.g.Tags))]
 	if len(tags) > 0 && t.r.Intn(4) != 0 {
 		tag = tags[t.r.Intn(len(tags))]
+	} else if t.r.Intn(4) == 0 {
+		// a tag that looks like something else; one time in three the referrers tag
+		// (<algorithm>-<hex>) of a manifest the repository holds
+		if t.r.Intn(3) == 0 {
+			tag = strings.Replace(ms[t.r.Intn(len(ms))].digest, ":", "-", 1)
+		} else {
+			tag = t.shaped[t.r.Intn(len(t.shaped))]
+		}
 	}
-	switch t.r.Intn(12) {
+	switch t.r.Intn(15) {
+	case 12, 13, 14:
+		return t.aimed(repo)
 	case 0, 1: // (re)tag with a known manifest
 		return pushMan(repo, tag, m.content, m.media), true
 	case 2: // same bytes, other media type, tagged
@@ -465,6 +558,11 @@ func (t *tracker) targeted() (memsim.Op, bool) {
 }
 
 func (t *tracker) next(targetedPct int) memsim.Op {
+	if len(t.queue) > 0 {
+		o := t.queue[0]
+		t.queue = t.queue[1:]
+		return o
+	}
 	if t.r.Intn(100) < targetedPct {
 		if o, ok := t.targeted(); ok {
 			return o
@@ -489,7 +587,13 @@ func randomInput(rnd *rand.Rand, i int) input {
 		in.Wrap = wrapKinds[1+rnd.Intn(len(wrapKinds)-1)]
 	}
 	g := memsim.NewGen(rnd, i%7 == 6)
-	t := &tracker{g: g, r: rnd, mans: map[string][]manRec{}}
+	t := &tracker{g: g, r: rnd, mans: map[string][]manRec{}, blobs: map[string][]byte{}}
+	t.shaped = lookalikeTags(memsim.Sha(g.Contents[rnd.Intn(len(g.Contents))]))
+	if rnd.Intn(2) == 0 {
+		// half of the histories: two of the history's own tags (the ones every operation draws
+		// from) are of that kind
+		g.Tags = append(g.Tags, t.shaped[0], t.shaped[rnd.Intn(len(t.shaped))])
+	}
 	under, mech, sp := build(in)
 	exU := memsim.NewExec(under, true)
 	exM := exU
